@@ -366,7 +366,7 @@ func init() {
 		fmt.Fprintf(b, "(* the instruction loop of run starts with `%s` *)\nDefinition head_check_first : bool := %s.\n", how, coqBool(hc))
 		fmt.Fprintf(b, "(* hasDefaultCase is only ever assigned false *)\nDefinition hasDefaultCase_only_false : bool := %s.\n\n", coqBool(hasDefaultOnlyFalse(rt)))
 		for _, n := range []string{"OpReceive", "OpSend", "OpSelect", "OpRange"} {
-			fmt.Fprintf(b, "Definition op_%s : N := %d.\n", n, constInt(rt, n))
+			fmt.Fprintf(b, "Definition op_%s : N := %d.\n", n, vmConstInt(rt, n))
 		}
 		return nil
 	})
